@@ -1,9 +1,350 @@
 import Pandora.Drv.Util
+import Pandora.Model.C10
+import Pandora.Spec.C10
 
+/-!
+C10 model driver: for one input line of harness/cmd/c10 computes the model's prediction of the observation line and
+the Spec's verdict on what the real guns reported.
+
+Error chains: the harness prints the SHAPE of the error stored on each sample; the model computes the net code from
+that shape (`Model.C10.getErrno`) — it never predicts an OS errno by itself.
+-/
 namespace Pandora.Drv.C10
-open Pandora.Drv
+open Pandora.Drv Pandora.Model.C10
+open Pandora.Spec.C10 (Obs Truth StepTruth)
 
-/-- stub: replaced when the property's model driver is written -/
-def handle : Handler := fun _ _ => ("-", "skip:not-built")
+def unhex (s : String) : Option String := do
+  let bs ← parseHex s
+  String.fromUTF8? (ByteArray.mk bs.toArray)
+
+def hexOf (s : String) : String := toHex s.toUTF8.toList
+
+/-! shapes -/
+
+def parseShapeL : Nat → List Char → Option Err
+  | 0, _ => none
+  | fuel + 1, cs =>
+    let tryWrap (pfx : String) : Option (List Char) :=
+      if pfx.toList.isPrefixOf cs && cs.getLast? == some ')' then some ((cs.drop pfx.length).dropLast) else none
+    match tryWrap "op(" with
+    | some i => (parseShapeL fuel i).map .opError
+    | none =>
+    match tryWrap "sys(" with
+    | some i => (parseShapeL fuel i).map .syscallError
+    | none =>
+    match tryWrap "url(" with
+    | some i => (parseShapeL fuel i).map .urlError
+    | none =>
+    match tryWrap "und(" with
+    | some i => (parseShapeL fuel i).map .underlying
+    | none =>
+    match tryWrap "cause(" with
+    | some i => (parseShapeL fuel i).map .causer
+    | none =>
+      let s := String.ofList cs
+      if s == "timeout" then some .timeout
+      else if s == "tmo" then some .tmoOnly
+      else if s == "other" || s == "nil" then some .other
+      else if "errno".toList.isPrefixOf cs then (String.ofList (cs.drop 5)).toNat?.map .errno
+      else none
+
+def parseShape (s : String) : Option Err := parseShapeL (s.length + 1) s.toList
+
+def printShape : Err → String
+  | .opError e => "op(" ++ printShape e ++ ")"
+  | .syscallError e => "sys(" ++ printShape e ++ ")"
+  | .urlError e => "url(" ++ printShape e ++ ")"
+  | .underlying e => "und(" ++ printShape e ++ ")"
+  | .causer e => "cause(" ++ printShape e ++ ")"
+  | .errno n => "errno" ++ toString n
+  | .timeout => "timeout"
+  | .tmoOnly => "tmo"
+  | .other => "other"
+
+/-! observation lines -/
+
+structure ObsS where
+  id : Nat
+  tags : String
+  proto : Nat
+  net : Nat
+  shape : String
+  deriving Inhabited
+
+def ObsS.toObs (o : ObsS) : Obs := { tags := o.tags, id := o.id, proto := o.proto, net := o.net }
+
+/-- `id:taghex:proto:net:shape` (withID) or `taghex:proto:net:shape` -/
+def parseSample (withID : Bool) (s : String) : Option ObsS := do
+  match s.splitOn ":", withID with
+  | [i, t, p, n, sh], true => pure { id := ← i.toNat?, tags := ← unhex t, proto := ← p.toNat?, net := ← n.toNat?, shape := sh }
+  | [t, p, n, sh], false => pure { id := 0, tags := ← unhex t, proto := ← p.toNat?, net := ← n.toNat?, shape := sh }
+  | _, _ => none
+
+def parseSamples (withID : Bool) (s : String) : Option (List ObsS) :=
+  (splitList s ";").mapM (parseSample withID)
+
+def fmtSample (withID : Bool) (s : Sample) (shape : String) : String :=
+  (if withID then toString s.id ++ ":" else "") ++ hexOf s.tags ++ ":" ++ toString s.proto ++ ":" ++ toString s.net ++ ":" ++ shape
+
+def fmtLine (res : String) (parts : List String) : String :=
+  "res=" ++ res ++ " s=" ++ String.intercalate ";" parts
+
+/-- first failing verdict -/
+def firstFail : List String → String
+  | [] => "ok"
+  | v :: vs => if v == "ok" then firstFail vs else v
+
+/-! k=http -/
+
+structure HReq where
+  tag : String
+  path : String
+  truth : String
+  deriving Inhabited
+
+def parseHReq (s : String) : Option HReq :=
+  match s.splitOn "," with
+  | [tag, _uri, path, _script, truth] => do pure { tag := tag, path := ← unhex path, truth := truth }
+  | _ => none
+
+def natAfter (pfx : String) (s : String) : Option Nat :=
+  if pfx.toList.isPrefixOf s.toList then (String.ofList (s.toList.drop pfx.length)).toNat? else none
+
+def handleHttp (kv : List (String × String)) (impl : String) : String × String :=
+  let cfg : AutoTagCfg := { enabled := getS kv "auto" == "1", uriElements := (getN? kv "el").getD 0, noTagOnly := getS kv "nto" == "1" }
+  match (splitList (getS kv "reqs") ";").mapM parseHReq with
+  | none => ("-", "fail:driver:unparsable reqs")
+  | some reqs =>
+    let ikv := parseKV impl
+    match parseSamples true (getS ikv "s") with
+    | none => ("-", s!"fail:crash:unparsable observation {impl.take 120}")
+    | some obs =>
+      let res := getS ikv "res"
+      let idx := List.range reqs.length
+      let rows := idx.map fun i =>
+        let r := reqs[i]!
+        let mine := obs.filter (·.id == i + 1)
+        let o1 := mine.head?
+        let shape := ((o1.bind fun o => parseShape o.shape).getD .other)
+        -- outcome and ground truth from the script's truth token
+        let (outcome, truth) : HttpOutcome × Truth :=
+          match natAfter "rbx" r.truth, natAfter "rb" r.truth, natAfter "r" r.truth with
+          | some st, _, _ =>
+            if (o1.map (·.proto)).getD 0 == st then (.response st (some shape), .bodyBroken st) else (.doErr shape, .failed)
+          | none, some st, _ => (.response st (some shape), .bodyBroken st)
+          | none, none, some st => (.response st none, .received st)
+          | none, none, none => (.doErr shape, .failed)
+        let shot : HttpShot := { ammoTag := r.tag, id := i + 1, path := r.path, outcome := outcome }
+        let rep := (shootHttp cfg shot).reports
+        let shp := match outcome with
+          | .response _ none => "nil"
+          | _ => printShape shape
+        let line := rep.map fun s => fmtSample true s shp
+        let exp := Spec.C10.expectedTag cfg.enabled cfg.uriElements cfg.noTagOnly r.tag r.path
+        (line, Spec.C10.judgeHttp exp truth (mine.map ObsS.toObs))
+      let stray := obs.filter fun o => o.id == 0 || o.id > reqs.length
+      let v := if res != "ok" then s!"fail:run:{res}"
+               else if !stray.isEmpty then "fail:count:sample with an id no request carries"
+               else firstFail (rows.map (·.2))
+      (fmtLine "ok" (rows.flatMap (·.1)), v)
+
+/-! k=scn -/
+
+structure SStep where
+  name : String
+  truth : String
+  pp : String
+
+def parseSStep (s : String) : Option SStep :=
+  match s.splitOn "," with
+  | [name, _uri, _script, truth, pp] => some { name := name, truth := truth, pp := pp }
+  | _ => none
+
+def postOfAssert (pp : String) (status : Nat) : PostRes :=
+  match natAfter "as" pp with
+  | some c => if c != 0 && c != status then .err else .ok
+  | none => .ok
+
+def stepOutcome (s : SStep) : StepOutcome :=
+  if s.pp == "tpl" then .prepErr
+  else match natAfter "rbx" s.truth, natAfter "rb" s.truth, natAfter "r" s.truth with
+    | some st, _, _ => .bodyErr st .other
+    | none, some st, _ => .bodyErr st .other
+    | none, none, some st => .received st (postOfAssert s.pp st)
+    | none, none, none => .doErr .other
+
+def stepTruth (s : SStep) : StepTruth :=
+  match stepOutcome s with
+  | .received st .ok => .passed st
+  | _ => .failedStep
+
+def replicate {α} (n : Nat) (l : List α) : List α := (List.replicate n l).flatten
+
+def handleScn (kv : List (String × String)) (impl : String) : String × String :=
+  match (splitList (getS kv "steps") ";").mapM parseSStep with
+  | none => ("-", "fail:driver:unparsable steps")
+  | some steps =>
+    let scn := getS kv "scn"
+    let n := (getN? kv "n").getD 1
+    let shot := shootScenario scn (steps.map fun s => { name := s.name, outcome := stepOutcome s })
+    let one := shot.reports.map fun s => fmtSample false s (if s.net == 0 then "nil" else "other")
+    let ikv := parseKV impl
+    match parseSamples false (getS ikv "s") with
+    | none => (fmtLine "ok" (replicate n one), s!"fail:crash:unparsable observation {impl.take 120}")
+    | some obs =>
+      let res := getS ikv "res"
+      let v := if res != "ok" then s!"fail:run:{res}"
+               else Spec.C10.judgeShots scn (steps.map fun s => (s.name, stepTruth s)) n (obs.map ObsS.toObs)
+      (fmtLine "ok" (replicate n one), v)
+
+/-! k=grpc, k=grpcscn, k=grpcdirect -/
+
+def grpcOutcome (kind : String) (code : Nat) : Option GrpcOutcome :=
+  match kind with
+  | "ok" => some (.invoked 0)
+  | "code" => some (.invoked code)
+  | "hang" => some (.invoked 4)        -- the client's deadline expires: DeadlineExceeded
+  | "nomethod" => some .unknownMethod
+  | "badpayload" => some .badPayload
+  | "marshal" => some .marshalErr
+  | _ => none
+
+def codeOf : GrpcOutcome → Option Nat
+  | .invoked c => some c
+  | _ => none
+
+def handleGrpc (kv : List (String × String)) (impl : String) : String × String :=
+  let parsed := (splitList (getS kv "reqs") ";").mapM fun r =>
+    match r.splitOn "," with
+    | [tag, kind, code] => do pure (tag, ← grpcOutcome kind (← code.toNat?))
+    | _ => none
+  match parsed with
+  | none => ("-", "fail:driver:unparsable reqs")
+  | some reqs =>
+    let line := reqs.flatMap fun (tag, o) => (shootGrpc tag o).reports.map fun s => fmtSample false s "nil"
+    let ikv := parseKV impl
+    match parseSamples false (getS ikv "s") with
+    | none => (fmtLine "ok" line, s!"fail:crash:unparsable observation {impl.take 120}")
+    | some obs =>
+      let res := getS ikv "res"
+      let v := if res != "ok" then s!"fail:run:{res}"
+               else Spec.C10.judgeGrpc (reqs.map fun (tag, o) => (tag, codeOf o)) (obs.map ObsS.toObs)
+      (fmtLine "ok" line, v)
+
+def handleGrpcDirect (kv : List (String × String)) (impl : String) : String × String :=
+  match unhex (getS kv "tag"), grpcOutcome (getS kv "kind") 0 with
+  | some tag, some o =>
+    let line := (shootGrpc tag o).reports.map fun s => fmtSample false s "nil"
+    let ikv := parseKV impl
+    match parseSamples false (getS ikv "s") with
+    | none => (fmtLine "ok" line, s!"fail:crash:unparsable observation {impl.take 120}")
+    | some obs => (fmtLine "ok" line, Spec.C10.judgeGrpc [(tag, codeOf o)] (obs.map ObsS.toObs))
+  | _, _ => ("-", "fail:driver:unparsable input")
+
+structure GCall where
+  tag : String
+  outcome : GrpcStepOutcome
+
+def parseGCall (s : String) : Option GCall :=
+  match s.splitOn "," with
+  | [_name, tag, kind, code, pp] => do
+    let c ← code.toNat?
+    let o : GrpcStepOutcome ← match kind with
+      | "ok" => some (.invoked 0 (postOfAssert pp (grpcToHttp 0)))
+      | "code" => some (.invoked c (postOfAssert pp (grpcToHttp c)))
+      | "nomethod" => some .unknownMethod
+      | "badpayload" => some .badPayload
+      | _ => none
+    pure { tag := tag, outcome := o }
+  | _ => none
+
+/-- spec side: the calls one shot executes (a call that was made and accepted lets the scenario go on) -/
+def executedCalls (scn : String) : List GCall → List (String × Option Nat)
+  | [] => []
+  | c :: rest =>
+    match c.outcome with
+    | .invoked code .ok => (scn ++ "." ++ c.tag, some code) :: executedCalls scn rest
+    | .invoked code _ => [(scn ++ "." ++ c.tag, some code)]
+    | _ => [(scn ++ "." ++ c.tag, none)]
+
+def handleGrpcScn (kv : List (String × String)) (impl : String) : String × String :=
+  match (splitList (getS kv "calls") ";").mapM parseGCall with
+  | none => ("-", "fail:driver:unparsable calls")
+  | some calls =>
+    let scn := getS kv "scn"
+    let n := (getN? kv "n").getD 1
+    let shot := shootGrpcScenario scn (calls.map fun c => { tag := c.tag, outcome := c.outcome })
+    let one := shot.reports.map fun s => fmtSample false s "nil"
+    let ikv := parseKV impl
+    match parseSamples false (getS ikv "s") with
+    | none => (fmtLine "ok" (replicate n one), s!"fail:crash:unparsable observation {impl.take 120}")
+    | some obs =>
+      let res := getS ikv "res"
+      let v := if res != "ok" then s!"fail:run:{res}"
+               else Spec.C10.judgeGrpc (replicate n (executedCalls scn calls)) (obs.map ObsS.toObs)
+      (fmtLine "ok" (replicate n one), v)
+
+/-! k=ids, k=errno, k=inv -/
+
+def handleIds (kv : List (String × String)) (impl : String) : String × String :=
+  let n := (getN? kv "n").getD 0
+  -- the model: n atomic fetch-adds in whatever order the instances perform them
+  let ids := (runIds 0 (List.range n)).map Prod.snd
+  let mn := ids.foldl min (ids.headD 0)
+  let mx := ids.foldl max 0
+  let distinct := if Spec.C10.idsUnique ids then ids.length else 0
+  let m := s!"res=ok count={ids.length} distinct={distinct} min={mn} max={mx}"
+  let ikv := parseKV impl
+  let v := if getS ikv "res" != "ok" then s!"fail:run:{getS ikv "res"}"
+           else match getN? ikv "count", getN? ikv "distinct" with
+             | some c, some d =>
+               if c != n then s!"fail:count:{c} samples for {n} requests"
+               else if d != c then s!"fail:ids:{c} samples carry only {d} distinct ids"
+               else "ok"
+             | _, _ => s!"fail:crash:unparsable observation {impl.take 120}"
+  (m, v)
+
+def handleErrno (kv : List (String × String)) (impl : String) : String × String :=
+  match parseShape (getS kv "shape") with
+  | none => ("-", "fail:driver:unparsable shape")
+  | some e =>
+    let m := s!"net={getErrno e} shape={printShape e}"
+    let v := match getN? (parseKV impl) "net" with
+      | some 0 => "fail:net:failed exchange coded 0"
+      | some _ => "ok"
+      | none => s!"fail:crash:unparsable observation {impl.take 120}"
+    (m, v)
+
+def handleInv (kv : List (String × String)) (impl : String) : String × String :=
+  match unhex (getS kv "tag") with
+  | none => ("-", "fail:driver:unparsable tag")
+  | some tag =>
+    let cfg : AutoTagCfg := { enabled := getS kv "auto" == "1", uriElements := 2, noTagOnly := true }
+    let shot : HttpShot := { invalid := true, ammoTag := tag, id := (getN? kv "id").getD 0, path := "/inv", outcome := .doErr .other }
+    let line := (shootHttp cfg shot).reports.map fun s => fmtSample true s "nil"
+    let m := "res=ok hits=0 s=" ++ String.intercalate ";" line
+    let ikv := parseKV impl
+    let v := match parseSamples true (getS ikv "s") with
+      | some [o] =>
+        if o.tags != (if tag == "" then Spec.C10.emptyTag else tag ++ "|" ++ Spec.C10.emptyTag) then s!"fail:tag:invalid ammo tagged {o.tags}"
+        else "ok"
+      | some l => s!"fail:count:{l.length} samples for one invalid ammo"
+      | none => s!"fail:crash:unparsable observation {impl.take 120}"
+    (m, v)
+
+def handle : Handler := fun input impl =>
+  let kv := parseKV input
+  if impl.startsWith "PANIC" then ("-", s!"fail:panic:{impl.take 160}")
+  else if impl == "HANG" then ("-", "fail:hang:driver case timed out")
+  else match getS kv "k" with
+  | "http" => handleHttp kv impl
+  | "scn" => handleScn kv impl
+  | "grpc" => handleGrpc kv impl
+  | "grpcscn" => handleGrpcScn kv impl
+  | "grpcdirect" => handleGrpcDirect kv impl
+  | "ids" => handleIds kv impl
+  | "errno" => handleErrno kv impl
+  | "inv" => handleInv kv impl
+  | _ => ("-", "fail:driver:unknown case kind")
 
 end Pandora.Drv.C10
